@@ -1,11 +1,13 @@
 """C09 — quantile-mapping transfer functions are monotone (rank preserving) within one calibration window.
 
 Lean: Props.C09 (theorems about the shared layer-N model).  Tie: tier A (regenerated LinearScaling / threshold_cdf_vals /
-step-6 count kernels = model) + tier B (`debiasers_corr` for LS / QM / CDFt, `isimip_corr` for the ISIMIP window pipeline).
+step-6 count kernels = model) + tier B (`debiasers_corr` for LS / QM / CDFt, `isimip_corr` for the ISIMIP window pipeline incl.
+zero-valued thresholds, `precip_qm_tie` / DrvPrecipQM for QuantileMapping with the hurdle / ignore-zeros / censored models).
 Oracle on the real code: for all pairs i, j of one window with x_i < x_j require out_i <= out_j.
 """
 import random
 import warnings
+from fractions import Fraction
 
 import numpy as np
 
@@ -580,6 +582,115 @@ def debiasers_tie(rng, n_cases, tier, res):
     return mismatches
 
 
+# ------------------------------------------------------------------ tier B for the precipitation models inside QuantileMapping
+def precip_qm_tie(rng, n_cases, res, mismatches):
+    """`Model/PrecipQM.lean` (driver DrvPrecipQM) against the real `QuantileMapping.apply_on_window` with the three
+    precipitation models: hurdle / ignore-zeros with a rational amounts double (F(z) = z/(1+z), fit = (0, mean of the wet
+    values)), censored gamma with the recorded calls of `scipy.stats.gamma.cdf / ppf` as tables (its fit replaced by a
+    data-dependent stub: the Nelder–Mead optimiser is outside the model).  Draws of np.random.uniform are captured."""
+    from ibicus.debias import QuantileMapping
+    from ibicus.utils import _math_utils as M
+
+    from harness import c17
+
+    class MeanDouble(c17.RatDouble):
+        def fit(self, data, *args, **kwds):
+            return (0.0, float(np.mean(np.asarray(data, dtype=float))))
+
+    def series(n, unit, dry):
+        k0 = max(1, min(n - 2, int(round(n * dry))))
+        v = [0.0] * k0 + [rng.randint(1, 40 * 64) / 64 for _ in range(n - k0)]
+        rng.shuffle(v)
+        return np.array(v, dtype=float) * unit
+
+    lines, expect = [], []
+    _quiet()
+    for k in range(n_cases):
+        model = ["hurdle", "ignore_zeros", "censored"][k % 3]
+        unit = rng.choice([1.0, 1.0, 2.0 ** -17, 2.0 ** -34])  # mm/day or a flux: wet values far below 1e-8 occur
+        nO, nH, nF = (rng.randint(4, 24) for _ in range(3))
+        o, h, f = series(nO, unit, rng.uniform(0.1, 0.5)), series(nH, unit, rng.uniform(0.2, 0.7)), series(nF, unit, rng.uniform(0.2, 0.7))
+        if rng.random() < 0.5:  # far tail / tiny values
+            f[rng.randrange(nF)] = 4000.0 * unit
+            f[rng.randrange(nF)] = unit / 4096
+        t = rng.choice([1e-10, 1.0 / 1024, 1.0 / 16])
+        d = rng.choice(["no_detrending", "multiplicative"]) if model != "censored" else "no_detrending"
+        tag = {"model": model, "k": k, "unit": unit, "t": t, "detrending": d, "sizes": [nO, nH, nF]}
+        R = C.rlist
+        np.random.seed(C.seed() * 977 + k)
+        try:
+            with warnings.catch_warnings(), np.errstate(all="ignore"):
+                warnings.simplefilter("ignore")
+                if model == "hurdle":
+                    rand = rng.random() < 0.7
+                    dist = M.gen_PrecipitationHurdleModel(distribution=MeanDouble(a=0.0, name="meandouble"), cdf_randomization=rand)
+                    deb = QuantileMapping(distribution=dist, mapping_type="parametric", detrending=d, cdf_threshold=t)
+                    with c17.Patched() as P:
+                        out = np.asarray(deb.apply_on_window(o.copy(), h.copy(), f.copy()), dtype=float)
+                    us = P.uniform_calls[0][3] if P.uniform_calls else np.zeros(nF)
+                    ok_draws = (len(P.uniform_calls) == (1 if rand else 0)) and (not rand or us.shape == f.shape)
+                    if not ok_draws:
+                        mismatches.append({"corr": "precip_qm", **tag, "why": "np.random.uniform not called once per window with one draw per value"})
+                        continue
+                    lines.append(f"qmh {d} {'true' if rand else 'false'} {C.rat(t)} {R(o)} {R(h)} {R(f)} {R(us)}")
+                elif model == "ignore_zeros":
+                    dist = M.gen_PrecipitationIgnoreZeroValuesModel(distribution=MeanDouble(a=0.0, name="meandouble"))
+                    deb = QuantileMapping(distribution=dist, mapping_type="parametric", detrending=d, cdf_threshold=t)
+                    out = np.asarray(deb.apply_on_window(o.copy(), h.copy(), f.copy()), dtype=float)
+                    lines.append(f"qmi {d} {C.rat(t)} {R(o)} {R(h)} {R(f)}")
+                else:
+                    thr = rng.choice([0.1, 0.5, 1.0, 0.125]) * unit
+                    censor = rng.random() < 0.7
+                    dist = M.gen_PrecipitationGammaLeftCensoredModel(censoring_threshold=thr, censor_in_ppf=censor)
+                    deb = QuantileMapping(distribution=dist, mapping_type="parametric", detrending=d, cdf_threshold=t)
+                    fit0 = M.gen_PrecipitationGammaLeftCensoredModel.__dict__["_fit_censored_gamma"]
+
+                    def stub(x, nr, min_x):  # data dependent: the fits of obs and cm_hist differ
+                        return (0.6 + 0.2 * (len(x) % 4), 0, float(np.mean(x)) if len(x) else unit)
+
+                    M.gen_PrecipitationGammaLeftCensoredModel._fit_censored_gamma = staticmethod(stub)
+                    try:
+                        with c17.Patched() as P:
+                            out = np.asarray(deb.apply_on_window(o.copy(), h.copy(), f.copy()), dtype=float)
+                    finally:
+                        M.gen_PrecipitationGammaLeftCensoredModel._fit_censored_gamma = fit0
+                    fit_h, fit_o = stub(h[h > thr], 0, thr), stub(o[o > thr], 0, thr)
+                    good = (len(P.uniform_calls) == 1 and len(P.gamma_cdf_calls) == 1 and len(P.gamma_ppf_calls) == 1
+                            and tuple(P.gamma_cdf_calls[0][1]) == fit_h and tuple(P.gamma_ppf_calls[0][1]) == fit_o)
+                    res.cov["traces_validated_against_impl"] += 1
+                    if not good:
+                        mismatches.append({"corr": "precip_qm", **tag, "why": "censored model: cdf not evaluated with the fit of cm_hist / ppf not with the fit of obs / draws"})
+                        continue
+                    us = P.uniform_calls[0][3]
+                    ca, cv = P.gamma_cdf_calls[0][0], P.gamma_cdf_calls[0][2]
+                    pa, pv = P.gamma_ppf_calls[0][0], P.gamma_ppf_calls[0][2]
+                    if not (np.all(np.isfinite(cv)) and np.all(np.isfinite(pv))):
+                        continue
+                    lines.append(f"qmc {d} {C.rat(thr)} {'true' if censor else 'false'} {C.rat(t)} {R(ca)} {R(cv)} {R(pa)} {R(pv)} {R(h)} {R(f)} {R(us)}")
+        except Exception as ex:  # noqa: BLE001
+            mismatches.append({"corr": "precip_qm", **tag, "why": f"{type(ex).__name__}: {str(ex)[:200]}"})
+            continue
+        expect.append((out, tag, f))
+        res.count(("tieB-precipQM", model, d, unit, t), True)
+    try:
+        got = C.run_driver("DrvPrecipQM", lines) if lines else []
+    except Exception as ex:  # noqa: BLE001
+        mismatches.append({"corr": "precip_qm", "why": f"driver: {type(ex).__name__}: {str(ex)[:300]}"})
+        return
+    for (out, tag, f), g in zip(expect, got):
+        res.cov["traces_validated_against_impl"] += 1
+        toks = [] if g == "-" else g.split(",")
+        if g == "bad-op" or len(toks) != out.size:
+            mismatches.append({"corr": "precip_qm", **tag, "impl": out.tolist()[:8], "model_value": g[:200]})
+            continue
+        mod = np.array([float(Fraction(x)) for x in toks])
+        sc = scale_of(out, mod)
+        bad = np.where(~(np.abs(out - mod) <= 1e-9 * sc + 1e-300))[0]
+        if bad.size:
+            i = int(bad[0])
+            mismatches.append({"corr": "precip_qm", **tag, "index": i, "x": float(f[i]), "impl": float(out[i]), "model_value": float(mod[i])})
+
+
 # ------------------------------------------------------------------ the check
 def run(tier, res, force_search=False):
     from harness import isimip_corr as IC
@@ -592,8 +703,9 @@ def run(tier, res, force_search=False):
         "scipy.stats.norm / gamma / beta / weibull_min are assumed (not proved) to satisfy the monotonicity / support laws stated as LocScaleLaws / "
         "IsiLaws; they are exercised by the oracle on the real code only",
         "np.histogram(bins='auto') bin edges / counts (kernel_density) are an oracle constrained by HistLaws; kernel_density is exercised via the real code only",
-        "the left-censored gamma and the hurdle precipitation models are local Lean transcriptions (Lemmas.C09.censCdf / censPpf / hurdleCdf / hurdlePpf) "
-        "tied by a structural probe (cdf / ppf formulas, draw interval, p0) and the oracle, not by a driver",
+        "the precipitation models inside QuantileMapping are Model/PrecipQM.lean over Model/Precip.lean, tied by the driver DrvPrecipQM "
+        "(real QuantileMapping.apply_on_window with a rational amounts double for hurdle / ignore-zeros; for the censored gamma model the recorded "
+        "scipy.stats.gamma.cdf / ppf calls are the amounts tables and the Nelder-Mead fit is replaced by a data-dependent stub)",
         "np.argsort is not stable: all statements are about strictly different inputs (x_i < x_j), never about the order of equal inputs",
     ]
     res.assumptions = [
@@ -617,13 +729,17 @@ def run(tier, res, force_search=False):
         mismatches.append({"corr": "debiasers", "why": f"{type(ex).__name__}: {str(ex)[:300]}"})
     try:
         cfgs = ["tas_nodetr", "tas_npqm", "pr_mixed", "pr_v30", "pr_npqm", "skew_npqm", "skew_param", "skew_step_inv", "hurs",
-                "hurs_param_freq", "upper_add", "pr_mixed_ks"]
+                "hurs_param_freq", "upper_add", "pr_mixed_ks", "pr_thr0", "skew_lthr0"]
         cfgs = [c for c in cfgs if c in IC.CONFIGS]
         mm = IC.correspondence(rng, len(cfgs) * (4 if tier == "quick" else 60), tier, res, configs=cfgs)
         for m in mm:
             mismatches.append({"corr": "isimip", **{k: (str(v)[:300]) for k, v in m.items() if k != "line"}})
     except Exception as ex:  # noqa: BLE001
         mismatches.append({"corr": "isimip", "why": f"{type(ex).__name__}: {str(ex)[:300]}"})
+    try:
+        precip_qm_tie(rng, 45 if tier == "quick" else 450, res, mismatches)
+    except Exception as ex:  # noqa: BLE001
+        mismatches.append({"corr": "precip_qm", "why": f"{type(ex).__name__}: {str(ex)[:300]}"})
     try:
         censored_model_probe(rng, res, mismatches)
     except Exception as ex:  # noqa: BLE001
